@@ -44,6 +44,14 @@ Proof.
   - vm_compute. repeat constructor.
 Qed.
 
+(* the location as drawn: for a span of positive width on a line, the dashes start in the printed column of the span's
+   first character and are as many as the span's characters occupy when printed (a tab is four columns), the line itself
+   being printed as prefix ++ spanned part ++ rest -- underline and underlined text line up character for character *)
+Theorem C14_underline_matches_span : forall line hs he, hs < he -> he <= length line ->
+  highlight line hs he = spaces (1 + length (expand_tabs (firstn hs line))) ++ repeat 45%N (length (expand_tabs (firstn (he - hs) (skipn hs line)))) /\
+  expand_tabs line = expand_tabs (firstn hs line) ++ expand_tabs (firstn (he - hs) (skipn hs line)) ++ expand_tabs (skipn he line).
+Proof. exact underline_matches_span. Qed.
+
 Example C14_instance :
   emit_json [ {| e_level := LAllowed; e_code := [88]%N; e_msg := [109]%N; e_span := None; e_notes := [] |};
               {| e_level := LError; e_code := [69;48;48;49]%N; e_msg := [97;34;10;1]%N; e_span := None; e_notes := [] |} ]
